@@ -29,9 +29,15 @@ PureCycle(u, s) ==
    /\ \E r \in {x.ref : x \in RefSites(u)} : RefText(r) = s.ref /\ r.frag # <<>>
          /\ LET d == Designated(u, FileOfId(u, s.owner), r, s.kind) IN "fail" \in DOMAIN d /\ d.fail = "cycle"
 
+(* F-C02-5: a JSON pointer that goes BELOW a header component ("#/components/headers/H/schema", ".../examples/e"): the typed    *)
+(* walk of the fragment (drillIntoField) matches the fields of a struct by their own tags and never looks into an embedded struct; *)
+(* Header is `struct{ Parameter }`, so no field of a header is ever found and a valid document fails to load.                      *)
+PointerBelowHeader(u) == \E x \in RefSites(u) : x.ref.frag # <<>> /\ x.ref.frag[1] = "#compinl" /\ x.ref.frag[2] = "headers"
+
 Class(line, bad, badsites) ==
    LET u == line.c.u IN
-   IF line.load # "ok" \/ badsites = <<>> THEN "none"
+   IF line.load = "error" /\ bad = {"valid_document_loads"} /\ PointerBelowHeader(u) THEN "pointer_below_header_component"
+   ELSE IF line.load # "ok" \/ badsites = <<>> THEN "none"
    \* F-C02-1 is repaired (9986135, d78e043, 326f29b): UnvisitedSite no longer names a class
    ELSE IF \A i \in DOMAIN badsites : Conflated(u, badsites[i]) THEN "raw_ref_string_conflation"
    ELSE IF \A i \in DOMAIN badsites : PureCycle(u, badsites[i]) THEN "pure_ref_cycle_left_unresolved"
